@@ -281,6 +281,6 @@ def blocks(tier):
 
 
 def run(ctx):
-    cnt = ctx.each("catalogue", blocks(ctx.tier), check_block, stop_after=4, timeout=900)
+    cnt = ctx.each("catalogue", blocks(ctx.tier), check_block, stop_after=4, timeout=150)
     ctx.exhaustive["catalogue"] = {"complete": True, "n_blocks": cnt, "bound": "3 scripts x 4 connection sets x every victim x 6 fault kinds x every step index"}
     ctx.hyp("scripts", case_st, check_case, ctx.scale(300, 3000))
